@@ -33,7 +33,7 @@ PROPS["C04"] = dict(engine="E5", level="fault_enumeration",
    design_ref="DESIGN.md 5.4", technique="runtime monitoring with fault injection: enumerated watch faults at every history position, continuity and resume-version oracles in virtual time, race detector on")
 
 PROPS["C14"] = dict(engine="E15", level="fault_enumeration",
-   rule="list half: every failure kind {List error, non-list object, list of non-objects, object without list accessor, (nil,nil)} x k-th list for k=1..4 x seeded variants (period, latency of the failing list, random subscriber tree of 5-8 nodes of all kinds, concurrent server mutations), plus deliberate Close and context cancel; watch half: E5's enumeration of watch-fault kind x position. distinct = distinct case descriptor; non-trivial = reached the fail-stop / not-fatal verdict.",
+   rule="list half: every failure kind {List error, non-list object, list of non-objects, object without list accessor, (nil,nil), a Status object with a nil error, a non-nil empty list returned together with an error} x k-th list for k=1..4 x seeded variants (period, latency of the failing list, random subscriber tree of 5-8 nodes of all kinds, concurrent server mutations), plus deliberate Close and context cancel; watch half: E5's enumeration of watch-fault kind x position. distinct = distinct case descriptor; non-trivial = reached the fail-stop / not-fatal verdict.",
    assumptions=["virtual time; a failing list is expected to stop the controller within (k+3) periods + latency + 10s"],
    floors={"any": {"failstop-checks": 80, "never-ready-checks": 10, "not-fatal-checks": 80}},
    level_text="Fault enumeration over failure kind x list index (x tree, period, latency variants) and watch-fault kind x position; oracles on Done/Error/Ready of the controller and every descendant.",
@@ -61,7 +61,7 @@ PROPS["C06"] = dict(engine="E7", level="exploration",
    design_ref="DESIGN.md 5.6", technique="runtime monitoring: snapshot comparison at synctest quiescence barriers against the reference filter applied to the parent's cache; event-replay mirrors; race detector on")
 
 PROPS["C07"] = dict(engine="E8", level="exploration",
-   rule="exhaustive: 16 parent contents (all subsets of 4 objects that the filter family distinguishes) x all ordered pairs of the 16-member filter family (equal/rebuilt-equal, overlapping, disjoint, accept-all, accept-none, FN twin, a chain of NSName filters ordered by inclusion, two composites differing only in a non-comparable child) x 4 node variants (SubscribeWithFilter, SubscribeForFilter, CloneWithFilter + plain subscriber below, CloneForFilter + plain subscriber below); quick adds an equal-filter step for a third of the pairs, thorough runs every triple A->B->A'(rebuilt)->A''(equal). Each Refilter call between two quiescence barriers is one evaluation, all distinct by construction; every one is non-trivial (the delivered event multiset and the cache are compared with the exact expectation).",
+   rule="exhaustive: 16 parent contents (all subsets of 4 objects that the filter family distinguishes) x all ordered pairs of the 16-member filter family (equal/rebuilt-equal, overlapping, disjoint, accept-all, accept-none, FN twin, a chain of NSName filters ordered by inclusion, two composites differing only in a non-comparable child) x 4 node variants (SubscribeWithFilter, SubscribeForFilter, CloneWithFilter + plain subscriber below, CloneForFilter + plain subscriber below); quick adds an equal-filter step for a third of the pairs and, for a quarter of them, a back-to-back Refilter(f1); Refilter(f2) without settling in between, thorough runs every triple A->B->A'(rebuilt)->A''(equal). Each Refilter call between two quiescence barriers is one evaluation, all distinct by construction; every one is non-trivial (the delivered event multiset and the cache are compared with the exact expectation).",
    assumptions=["no parent events in flight (the engine is the only producer and is idle around the call)"],
    floors={"any": {"refilters-with-delta": 2000, "refilters-silent": 500, "pairs": 6400}},
    exhaustive_key="pairs", exhaustive_min=16384,
@@ -69,7 +69,7 @@ PROPS["C07"] = dict(engine="E8", level="exploration",
    design_ref="DESIGN.md 5.7", technique="runtime monitoring: exact event-multiset oracle between synctest quiescence barriers around Refilter, exhaustive over contents x filter pairs x variants")
 
 PROPS["C08"] = dict(engine="E9", level="exploration",
-   rule="exhaustive over operation sequences: every word over {R parent becomes ready (at most once), E Refilter(equal), N Refilter(new), V parent event / parent cache change, S subscribe below} of length <=5 (quick: 2958 words; thorough <=6: 13198 words) x {SubscribeWithFilter, SubscribeForFilter, CloneWithFilter, CloneForFilter} x chain depth 1-3 x 2 filter palettes for the 'new' filters ({l=x, Or(...)} and {accept-all, l=x}), run STEPPED (a quiescence barrier and a full judgement after every step) and UNSTEPPED (no barriers, logger perturbation on, judgement at the end; quick: words of length >=4). Plus controller cases: a real controller whose first list takes 0..5s while the server keeps changing: not ready (nor any subscription) while the list is in flight, the read made when Ready() fires holds the list's accepted objects (or newer), no event before Ready(). One evaluation = one word executed on a fresh root kit (or one controller case); all distinct by construction; non-trivial = the readiness automaton and content checks were evaluated for every node after the word.",
+   rule="exhaustive over operation sequences: every word over {R parent becomes ready (at most once), E Refilter(equal), N Refilter(new), V parent event / parent cache change, S subscribe below} of length <=5 (quick: 2958 words; thorough <=6: 13198 words) x {SubscribeWithFilter, SubscribeForFilter, CloneWithFilter, CloneForFilter} x chain depth 1-3 x up to 4 filter palettes for the 'new' filters ({l=x, Or(...)}, {accept-all, l=x}, {childless And, l=x}, {accept-all, childless Or}), run STEPPED (a quiescence barrier and a full judgement after every step) and UNSTEPPED (no barriers, logger perturbation on, judgement at the end; quick: words of length >=4). Plus failed-first-list cases (every list failure kind at the first list, with a subscriber tree attached: nothing may become ready, receive an event or a callback). Plus controller cases: a real controller whose first list takes 0..5s while the server keeps changing: not ready (nor any subscription) while the list is in flight, the read made when Ready() fires holds the list's accepted objects (or newer), no event before Ready(). One evaluation = one word executed on a fresh root kit (or one controller case); all distinct by construction; non-trivial = the readiness automaton and content checks were evaluated for every node after the word.",
    assumptions=["the root kit only publishes after MakeReady, as a controller does", "failed-first-list clause is decided in E15 (reported under C08/ready-after-failed-first-list) and event-before-ready also by E6/E7 consumers"],
    floors={"any": {"sequences": 30000, "ready-state-checks": 100000, "content-at-readiness-checks": 20000}},
    exhaustive_key="sequences", exhaustive_min=30000,
